@@ -40,6 +40,10 @@ def check_lifecycle(ctx, sc):
         classes.append("dev:" + sc["deviation"].split(":")[0])
     ctx.note(sc, nontrivial=nt, classes=classes)
     if out["how"] == "budget":
+        ll = L.livelock(out, L.time_bound(sc))
+        if ll:
+            ctx.fail("not-finished", ll, f"step budget exhausted at virtual t={rep['now']} s, far beyond every timeout ({L.time_bound(sc)} s allowed): threads still alive {[(t['name'], t['state'], t['label'], t.get('where')) for t in rep['threads'] if t['state'] != 'done']}; family {sc['family']} dev={sc.get('deviation')}")
+            return
         ctx.inconclusive += 1
         return
 
